@@ -373,5 +373,10 @@ def fresh(kind, name, ctx=(), facts=None):
             fresh(_ek, _name + '.el', _ctx + (i,), fs)
             return fs
         tag = 'bytes' if isinstance(ek, KByte) else 'list'
+        if isinstance(ek, KByte):
+            # kind invariant of bytes: every element is in 0..255 (total function, so stated for every index)
+            qi = z3.Int(uid('bi'))
+            el = get(qi)
+            facts.append(z3.ForAll([qi], z3.And(el >= 0, el <= 255), patterns=[el]))
         return View(ln, get, ek, vfacts, tag)
     raise Unsupported('fresh(%r)' % (kind,))
